@@ -104,6 +104,27 @@ def lsmr_kwargs(mbi):
     return dict(_LsmrArgs.parse(extra))
 
 
+def real_lsmr_as_called(mbi, impl, Q):
+    """scipy's lsmr evaluated through the very call expression (`lsmr(Q.T, o, ...)`) found in the working tree's source of the implementation
+    under test (FactoredInference._setup / LocalInference._setup / public_inference.estimate_total), so that dropped or changed solver arguments
+    in any one copy are seen by the contract validation of that copy."""
+    import ast
+    import inspect
+    import textwrap
+    from scipy.sparse.linalg import lsmr as real_lsmr
+    import mbi.public_inference as pi
+    fn = {"factored": mbi.FactoredInference._setup, "local": mbi.LocalInference._setup}.get(impl, pi.estimate_total)
+    tree = ast.parse(textwrap.dedent(inspect.getsource(fn)))
+    calls = [n for n in ast.walk(tree) if isinstance(n, ast.Call) and isinstance(n.func, ast.Name) and n.func.id == "lsmr"]
+    if len(calls) != 1:
+        kw = lsmr_kwargs(mbi)
+        return real_lsmr(Q.T, np.ones(Q.shape[1]), atol=0, btol=0, **kw)[0]
+    code = compile(ast.Expression(calls[0]), "<lsmr call of %s>" % fn.__qualname__, "eval")
+    env = dict(inspect.getmodule(fn).__dict__)
+    env.update(lsmr=real_lsmr, Q=Q, o=np.ones(Q.shape[1]), np=np, max=max, min=min)
+    return eval(code, env)[0]
+
+
 class _LsmrArgs:
     @staticmethod
     def parse(text):
@@ -167,9 +188,15 @@ def scenario_for(cfg, mode):
             # ones vector in the row space of Q whenever it is there (and only then)
             from scipy.sparse.linalg import lsmr as real_lsmr
             _, expressible = exact_v(Q)
-            kw = lsmr_kwargs(mbi)
-            vr = real_lsmr(Q.T, np.ones(Q.shape[1]), atol=0, btol=0, **kw)[0]
+            vr = real_lsmr_as_called(mbi, impl, Q)
             T.append(("lsmr contract: %s%d row space test" % (pat, n), bool(np.allclose(Q.T.dot(vr), np.ones(Q.shape[1]))), bool(expressible)))
+        # the same validation on larger prefix-sum workloads (concrete; the contract must hold for the sizes users pass, not only for the
+        # sizes the symbolic run can afford): 16, 32, 64 cells
+        if "P" in PATTERNS:
+            for nbig in (16, 32, 64):
+                Qb = PATTERNS["P"](nbig)
+                vb = real_lsmr_as_called(mbi, impl, Qb)
+                T.append(("lsmr contract: prefix%d row space test" % nbig, bool(np.allclose(Qb.T.dot(vb), np.ones(nbig))), True))
         # --- run the real code ---------------------------------------------------------------------------
         given_total = V.real("Ngiven", "p") if mode == "given" else None
 
